@@ -330,6 +330,14 @@ class SxCheck:
             return {"status": R.REFUTED, "paths": 1, "nontrivial": 0, "queries": 0, "solver_s": 0.0, "samples": [{}],
                     "counterexamples": [{"label": f"scheduling raised {type(e).__name__} at {where}: {e}"[:200], "inputs": dict(cell.defaults)}],
                     "detail": f"exception from repository code in the concrete run with the largest values: {type(e).__name__}"}
+        if not ok:
+            # the oracle fails on the concrete run with the largest values: a counterexample if the public API shows it too
+            rp = cell.replay(dict(cell.defaults))
+            if rp.get("reproduced"):
+                return {"status": R.REFUTED, "paths": 1, "nontrivial": 0, "queries": 0, "solver_s": 0.0, "samples": [{}],
+                        "counterexamples": [{"label": "concrete run with the largest values: " + "; ".join(str(x) for x in cell.fail_labels[:3])[:200],
+                                             "inputs": dict(cell.defaults)}],
+                        "detail": "the oracle fails on the concrete witness run (largest values of the ranges)"}
         import time as _t
 
         t0 = _t.time()
